@@ -513,9 +513,57 @@ pub struct Spec {
     vault0: Milli,
     div_step: Milli,
     alpha: Alpha,
+    /// operations executed as part of the fixed prelude (exploration from a non-initial state: the model is
+    /// advanced through them, so it knows the live proofs); empty for the exploration from the initial state
+    pre_ops: Vec<Op>,
+    /// add the boundary amounts of the current state (available = total − max(locked), and one unit more) to the
+    /// withdraw / recall / take operations
+    boundary: bool,
+}
+
+/// Non-initial start states: three live locks on one container (vault, bucket in hand, bucket on the worktop).
+/// Named proofs after the prelude: #0, #1, #2 (see each shape); the auth zone is empty.
+fn pre_shape(name: &str) -> Option<Vec<Op>> {
+    Some(match name {
+        // vault proofs of 5, 2, 1 popped back: #0 = 1, #1 = 2, #2 = 5
+        "vault-1-2-5" => vec![Op::VProof(5000), Op::VProof(2000), Op::VProof(1000), Op::Pop, Op::Pop, Op::Pop],
+        // vault proof of 2 and its clone next to a proof of 5: #0 = 2, #1 = 2 (clone), #2 = 5
+        "vault-2-2c-5" => vec![Op::VProof(2000), Op::Pop, Op::Clone(0), Op::VProof(5000), Op::Pop],
+        // bucket #0 (3 F) with proofs of 1, 2 and all
+        "bucket-1-2-3" => vec![Op::BProofAmt(0, 1000), Op::BProofAmt(0, 2000), Op::BProofAll(0)],
+        // bucket #0 with a proof of 1, its clone and a proof of all
+        "bucket-1-1c-3" => vec![Op::BProofAmt(0, 1000), Op::Clone(0), Op::BProofAll(0)],
+        // the same two, with the locked bucket put on the (empty) worktop
+        "wtbucket-1-2-3" => vec![Op::BProofAmt(0, 1000), Op::BProofAmt(0, 2000), Op::BProofAll(0), Op::ReturnB(0)],
+        "wtbucket-1-1c-3" => vec![Op::BProofAmt(0, 1000), Op::Clone(0), Op::BProofAll(0), Op::ReturnB(0)],
+        _ => return None,
+    })
 }
 
 impl Spec {
+    fn with_prelude(shape: &str) -> Spec {
+        let mut s = Spec::new(2, Alpha::Full);
+        s.pre_ops = pre_shape(shape).unwrap_or_else(|| mc_core::machinery_error(&format!("C10: unknown prelude shape {shape}")));
+        s.boundary = true;
+        // the prelude itself must be executed by the engine and accepted by the model
+        let mut m = Model::new(s.vault0, s.div_step);
+        for op in &s.pre_ops {
+            if let Expect::MustFail(r) = m.apply(op) {
+                mc_core::machinery_error(&format!("C10: prelude {shape} is rejected by the model at {op:?}: {r}"));
+            }
+        }
+        let mut sim = psim_from(&s.snap);
+        match run_marked(&mut sim, &s.w, s.prelude(), s.tail(&m)) {
+            Ok(o) if o.reached_marker && o.success => {}
+            Ok(o) => {
+                // not a machinery error: the engine refusing (part of) a legal prelude is a finding about the engine
+                eprintln!("C10: prelude {shape} was not executed cleanly by the engine: marker={} success={} {}", o.reached_marker, o.success, o.failure);
+            }
+            Err(p) => eprintln!("C10: prelude {shape} panicked: {p}"),
+        }
+        s
+    }
+
     fn new(divisibility: u8, alpha: Alpha) -> Spec {
         let (vault0, div_step, total) = match divisibility {
             2 => (5550, 10, dec!("8.55")),
@@ -526,7 +574,7 @@ impl Spec {
         let mut sim = psim_from(&snap);
         let f_vault = sim.get_component_vaults(w.a, w.f)[0];
         let nf_vault = sim.get_component_vaults(w.a, w.nf)[0];
-        Spec { snap, w, f_vault, nf_vault, vault0, div_step, alpha }
+        Spec { snap, w, f_vault, nf_vault, vault0, div_step, alpha, pre_ops: vec![], boundary: false }
     }
 }
 
@@ -537,7 +585,11 @@ impl SeqSpec for Spec {
         (&self.snap, &self.w)
     }
     fn init(&self) -> Model {
-        Model::new(self.vault0, self.div_step)
+        let mut m = Model::new(self.vault0, self.div_step);
+        for op in &self.pre_ops {
+            m.apply(op);
+        }
+        m
     }
     fn ops(&self, m: &Model) -> Vec<Op> {
         let full = self.alpha == Alpha::Full;
@@ -584,6 +636,29 @@ impl SeqSpec for Spec {
         } else {
             v.extend([Op::Withdraw(3000), Op::Withdraw(4000), Op::WithdrawNf(0b001), Op::Recall(4000), Op::TakeW(1000)]);
         }
+        if self.boundary {
+            // boundary amounts of THIS state: exactly what is available, and the smallest unit more
+            let va = m.conts[VAULT].available();
+            for op in [Op::Withdraw(va), Op::Withdraw(va + self.div_step), Op::Recall(va + self.div_step), Op::VBurn(va + self.div_step)] {
+                let a = match op {
+                    Op::Withdraw(a) | Op::Recall(a) | Op::VBurn(a) => a,
+                    _ => 0,
+                };
+                if a > 0 && !v.contains(&op) {
+                    v.push(op);
+                }
+            }
+            if let Some(e) = m.wt_f {
+                let ea = m.conts[e].available();
+                for op in [Op::TakeW(ea), Op::TakeW(ea + self.div_step)] {
+                    if let Op::TakeW(a) = op {
+                        if a > 0 && !v.contains(&op) {
+                            v.push(op);
+                        }
+                    }
+                }
+            }
+        }
         v.push(Op::DepositAll);
         v.push(Op::AmountV);
         v
@@ -598,10 +673,12 @@ impl SeqSpec for Spec {
         m.sane()
     }
     fn prelude(&self) -> Vec<InstructionV1> {
-        vec![
+        let mut p = vec![
             call_method(self.w.a, "withdraw", &(self.w.f, dec!(3))),
             InstructionV1::TakeAllFromWorktop(TakeAllFromWorktop { resource_address: self.w.f }),
-        ]
+        ];
+        p.extend(self.pre_ops.iter().map(|o| self.instruction(o)));
+        p
     }
     fn instruction(&self, op: &Op) -> InstructionV1 {
         let w = &self.w;
@@ -716,34 +793,62 @@ fn variant(tag: &str) -> (u8, Alpha) {
     (div, alpha)
 }
 
+/// tags: `full-div2`, `full-div18`, `core-div2` (from the initial state) and `from:<shape>` (non-initial state,
+/// full alphabet + boundary amounts, divisibility-2 world)
+fn spec_for(tag: &str) -> Spec {
+    match tag.strip_prefix("from:") {
+        Some(shape) => Spec::with_prelude(shape),
+        None => {
+            let (d, a) = variant(tag);
+            Spec::new(d, a)
+        }
+    }
+}
+
 pub fn run(ctx: Ctx) -> ! {
     if let Some(case) = ctx.read_replay_case() {
         let tag = case.get("variant").and_then(|v| v.as_str()).unwrap_or("full-div2").to_string();
-        let (d, a) = variant(&tag);
-        let spec = Spec::new(d, a);
+        let spec = spec_for(&tag);
         replay(&ctx, &spec, &tag, &case);
         ctx.finish(Level::ModelChecking, "replay", 0, false, Map::new(), &[]);
     }
     if std::env::var("VERIF_COUNT").is_ok() {
-        for tag in ["full-div2", "full-div18", "core-div2"] {
-            let (d, a) = variant(tag);
+        for tag in ["from:vault-1-2-5", "from:vault-2-2c-5", "from:bucket-1-2-3", "from:bucket-1-1c-3", "from:wtbucket-1-2-3", "from:wtbucket-1-1c-3"] {
             println!("{tag}:");
-            count_only(&Spec::new(d, a), if a == Alpha::Full { 4 } else { 6 });
+            count_only(&spec_for(tag), 3);
         }
         std::process::exit(2);
     }
     // (variant, length, wall cap)
     let plan: Vec<(&str, usize, f64)> = if ctx.quick() {
-        vec![("full-div2", 3, 60.0), ("full-div18", 2, 20.0), ("core-div2", 4, 60.0)]
+        vec![
+            ("from:vault-1-2-5", 2, 15.0),
+            ("from:vault-2-2c-5", 2, 15.0),
+            ("from:wtbucket-1-2-3", 2, 15.0),
+            ("from:wtbucket-1-1c-3", 2, 15.0),
+            ("from:bucket-1-2-3", 2, 15.0),
+            ("full-div2", 3, 60.0),
+            ("full-div18", 2, 20.0),
+            ("core-div2", 4, 60.0),
+        ]
     } else {
-        vec![("full-div2", 4, 900.0), ("full-div18", 3, 300.0), ("core-div2", 5, 900.0)]
+        vec![
+            ("from:vault-1-2-5", 3, 300.0),
+            ("from:vault-2-2c-5", 3, 300.0),
+            ("from:bucket-1-2-3", 3, 300.0),
+            ("from:bucket-1-1c-3", 3, 300.0),
+            ("from:wtbucket-1-2-3", 3, 300.0),
+            ("from:wtbucket-1-1c-3", 3, 300.0),
+            ("full-div2", 4, 900.0),
+            ("full-div18", 3, 300.0),
+            ("core-div2", 5, 900.0),
+        ]
     };
     let mut cov = Map::new();
     let (mut executed, mut nontrivial, mut capped) = (0, 0, false);
     let mut bounds = vec![];
     for (i, (tag, len, cap)) in plan.into_iter().enumerate() {
-        let (d, a) = variant(tag);
-        let spec = Spec::new(d, a);
+        let spec = spec_for(tag);
         let st = explore(&ctx, &spec, i, tag, len, ctx.elapsed_s() + cap * cap_scale(), &mut cov);
         executed += st.executed;
         nontrivial += st.nontrivial;
@@ -769,6 +874,7 @@ pub fn run(ctx: Ctx) -> ! {
             "account A and the marker account have owner rule allow_all so that DROP_ALL_PROOFS cannot remove authority",
             "proofs composed by the auth zone (CREATE_PROOF_FROM_AUTH_ZONE_*) are not in the alphabet",
             "bucket and proof arguments range over all live named objects plus one representative instruction per consumed object",
+            "`from:<shape>` explorations start from a non-initial state reached by a fixed prelude (three live locks on one vault / bucket); the reference model is advanced through the same prelude",
         ],
     )
 }
